@@ -74,6 +74,8 @@ class Check:
         C.install(E)
         S.install(E)
         E.prefix = self.pid + "."
+        for c in C.contracts():
+            E.contracts.setdefault(c.key, c)
         return E
 
     # ------------------------------------------------------------------ contracts
@@ -255,7 +257,12 @@ class Check:
 
     # ------------------------------------------------------------------ evidence
     def finish(self, level_if_complete="proof", explanation=None, extra_cov=None):
-        prov = [i for i in self.items if i.kind != "bounded"]
+        for i in self.items:
+            if i.status == "failed":
+                for k in self.known:
+                    if k.get("status") != "fixed" and k.get("obligation") and k["obligation"] in i.name:
+                        i.status = "known-finding"
+        prov = [i for i in self.items if i.kind != "bounded" and i.status != "known-finding"]
         n_ob = len(prov)
         n_dis = sum(1 for i in prov if i.status == "discharged")
         by_backend = {}
@@ -281,6 +288,7 @@ class Check:
             "bounded": self.bounded,
             "vacuity": self.vacuity,
             "known_findings_reproduced": self.known_printed,
+            "excluded_as_known_finding": [i.name for i in self.items if i.status == "known-finding"],
             "all_items": [i.as_json() for i in self.items],
             "explanation": explanation or "",
         }
